@@ -34,7 +34,7 @@ var anchorPatterns = map[string][]string{
 		// the functions the tabled collect-then-sort map ranges (ND-3 class S) rely on
 		`^model\.\(\*Weights\)\.AsKeyValue$`, `^owa\.(sortAlternativeCriteriaWeights|additionAsOwaParams)$`, `^choquet\.(prepareCriteriaInAscendingOrder|computeTotalWeight|criterionKey)$`,
 		`^choquet\.\(\*criteriaWeights\)\.(Less|Len|Swap)$`, `^satisfaction_levels\.\(\*SatisfactionLevelsUpdateListeners\)\.Fetch$`},
-	"C03": {`^type:model\.(EvaluationSingleValue|AlternativeResult|AlternativesRankEntry|WeightType)$`,
+	"C03": {`^model\.\(\*Criteria\)\.(Get|Len)$`, `^type:model\.(EvaluationSingleValue|AlternativeResult|AlternativesRankEntry|WeightType)$`,
 
 		`^weighted_sum\.`, `^owa\.`, `^choquet\.`, `^model\.\(\*AlternativeResult\)\.(rounded|Value)$`, `^model\.(ValueAlternativeResult|Rank|ExtractWeights)$`,
 		`^model\.\(\*AlternativeWithCriteria\)\.(CriterionValue|CriterionRawValue)$`, `^model\.\(\*Criterion\)\.(Multiplier|IsGain)$`,
@@ -124,7 +124,7 @@ var anchorPatterns = map[string][]string{
 		`^anchoring\.`, `^criteria_bounding\.`, `^model\.(GetScaleRatio|GetNormalScaleRatio|CriteriaValuesRange|UpdateAlternatives)$`,
 		`^utils\.\(\*(ExpFromZeroFunction|LinearFunctionParameters)\)\.Evaluate$`, `^utils\.\(\*ValueRange\)\.(Diff|ScaleEqually)$`,
 		`^model\.\(\*AlternativeWithCriteria\)\.(CriterionValue|WithCriterion|WithCriteriaValues)$`, `^model\.\(\*Criterion\)\.IsGain$`},
-	"C20": {`\.\(\*\w+\)\.MethodParameters$`, `^global:main\.`, `^type:main\.`, `^type:model\.(DecisionMaker|DecisionMakerChoice|Criterion|BiasParams)$`, `^satisfaction_levels\.\(\*(IdealCoefficientSatisfactionLevels|IncreasingCoefficientManager|DecreasingCoefficientManager|ThresholdSatisfactionLevels)\)\.`, `^global:satisfaction_levels\.`, `^global:electreIII\.`,
+	"C20": {`\.\(\*\w+\)\.MethodParameters$`, `^model\.\(\*(Criteria|BiasListeners|PreferenceFunctions|BiasMap)\)\.(Get|Len)$`, `^global:main\.`, `^type:main\.`, `^type:model\.(DecisionMaker|DecisionMakerChoice|Criterion|BiasParams)$`, `^satisfaction_levels\.\(\*(IdealCoefficientSatisfactionLevels|IncreasingCoefficientManager|DecreasingCoefficientManager|ThresholdSatisfactionLevels)\)\.`, `^global:satisfaction_levels\.`, `^global:electreIII\.`,
 		`^main\.`, `^model\.\(\*DecisionMaker\)\.(MakeDecision|validateAlternatives|prepareParams)$`, `^model\.\(\*Criteria\)\.(Validate|FindWeight)$`,
 		`^model\.\(\*(PreferenceFunctions|BiasListeners)\)\.(Fetch|FetchParameters)$`, `^model\.(ChooseBiases|FetchAlternative|ExtractWeights|IsStringBlank)$`,
 		`^model\.\(\*Weights\)\.Fetch$`, `^model\.\(\*AlternativeWithCriteria\)\.CriterionRawValue$`,
